@@ -24,7 +24,6 @@ def InitOK (L : List GL) (gs : List Group) : Prop :=
 def PermsOK (k : Nat) (H : List (List (List Pkt))) (perms : List (List Nat)) : Prop :=
   H.length ≤ perms.length ∧ ∀ p ∈ perms, ∀ i, i < k → i ∈ p
 
-def startSt (gs : List Group) (f0 : Int) : St := { groups := gs, nextFrame := f0, pend := 0 }
 
 theorem valid_facts {fpp : Nat} {L : List GL} {H : List (List (List Pkt))} (h : validIn fpp L H = true) :
     L ≠ [] ∧ AllOK fpp L (arrOf H) := by
@@ -475,6 +474,26 @@ theorem C03_oracle (fpp : Nat) (L : List GL) (f0 : Int) (H : List (List (List Pk
     C03_stream_exact fpp L f0 H gs perms hv hi hp s' outs hrun,
     C03_dropped_count fpp L f0 H gs perms hv hi hp s' outs hrun]
   rfl
+
+/-! ### Restart of the same source object -/
+
+/-- **C03_restart_is_fresh**: a later Start of the same source begins from the state of a freshly
+made source — whatever the earlier run left behind (`old`: queued packets of a lagging group, sync
+offsets, last sequence numbers, a pending dropped-frame count).  Hence the blocks of the new run are
+a function of the new run's start-up groups and packets only. -/
+theorem C03_restart_is_fresh (old old' : St) (gs : List Group) (f0 : Int) (H : List (List (List Pkt)))
+    (perms : List (List Nat)) :
+    runFrom 0 (restartSt old gs f0) H perms = runFrom 0 (restartSt old' gs f0) H perms ∧
+    runFrom 0 (restartSt old gs f0) H perms = runFrom 0 (startSt gs f0) H perms :=
+  ⟨rfl, rfl⟩
+
+/-- **C03_restart_oracle**: every clause of the oracle holds for the run after a restart, for all
+earlier runs (any state `old` reached by any history), layouts, losses, batchings and map orders. -/
+theorem C03_restart_oracle (old : St) (fpp : Nat) (L : List GL) (f0 : Int) (H : List (List (List Pkt))) (gs : List Group)
+    (perms : List (List Nat)) (hv : validIn fpp L H = true) (hi : InitOK L gs) (hp : PermsOK L.length H perms) :
+    ∃ s' outs, runFrom 0 (restartSt old gs f0) H perms = .ok (s', outs) ∧ chkC03 fpp L f0 H outs = true := by
+  obtain ⟨s', outs, h⟩ := C03_no_panic fpp L f0 H gs perms hv hi hp
+  exact ⟨s', outs, h, C03_oracle fpp L f0 H gs perms hv hi hp s' outs h⟩
 
 /-! ### Non-vacuity: a concrete lagging, lossy two-group history satisfies the hypotheses,
 runs without panic and emits the expected stream (the scenario of the repaired defect:
